@@ -124,4 +124,13 @@ def WF : Msg → Prop
   | .request => True
   | .status acs => acs ≠ [] ∧ ∀ a ∈ acs, WFRec a
 
+/-- run-time test of `WFRec` / `WF` (see `Lemmas.At4X2D.wfBool_iff`) -/
+def wfRecBool (a : AcStatusData) : Bool :=
+  decide (a.ac_number < 64) && decide (a.set_point < 64) && decide (a.error_code < 65536) &&
+  decide (-500 ≤ a.temperature) && decide (a.temperature ≤ 1547)
+
+def wfBool : Msg → Bool
+  | .request => true
+  | .status acs => !acs.isEmpty && acs.all wfRecBool
+
 end PyAirtouch.Model.At4.X2D
